@@ -214,6 +214,21 @@ def main(argv=None):
             for r in pool.imap_unordered(_worker, units, chunksize=1):
                 absorb(r)
 
+    # regression records: the smallest failing case of every defect that was repaired, re-executed on
+    # every run so that the violation is reported again if it ever returns
+    regdir = os.path.join(ROOT, "regressions", pid)
+    nreg = 0
+    if os.path.isdir(regdir):
+        for fn in sorted(os.listdir(regdir)):
+            if fn.endswith(".json"):
+                with open(os.path.join(regdir, fn)) as fh:
+                    rec = json.load(fh)
+                nreg += 1
+                for sig, msg in mod.replay(rec["kind"], rec["case"]):
+                    failures.append({"kind": rec["kind"], "case": rec["case"], "sig": sig, "msg": msg})
+                    agg["nfail"] += 1
+    extra["regression_records_replayed"] = nreg
+
     if harness_errors:
         print("HARNESS-ERROR: %d work unit(s) raised inside the machinery" % len(harness_errors))
         print(harness_errors[0]["harness_error"])
